@@ -190,6 +190,13 @@ def render(e):
     return k
 
 
+def _is_buffer_param(body, find):
+    """The haystack of `find` is (a reborrow of) a `&mut BytesMut` / `&BytesMut` parameter of a helper."""
+    o, vis = body.backward_slice(F.op_base(find.args[1]), through_call=lambda c: c.is_fn("Deref::deref", "DerefMut::deref_mut", "AsRef::as_ref"))
+    argc = body.raw["arg_count"]
+    return any(1 <= v <= argc and "BytesMut" in body.local_ty(v) for v in vis)
+
+
 def pump(chk, fx, b, mlen):
     chk.analysed(b.name)
     fn = "transport::ssh pump"
@@ -198,22 +205,50 @@ def pump(chk, fx, b, mlen):
     splits = b.calls_to("BytesMut::split_to", user_only=True)
     waits = b.calls_to("russh::Channel::<S>::wait", user_only=True)
     exts = b.calls_to("BytesMut::extend_from_slice", user_only=True)
-    chk.floor("C06 ssh pump find/split/wait/extend sites", min(len(finds), len(splits), len(waits), len(exts)), 1)
-    chk.call_sites += len(finds) + len(splits) + len(waits) + len(exts)
-    for f in finds:
-        hs, _ = haystack_start(b, sym, f)
-        whole = hs[0] == "buffer"
-        chk.instance("C06/R1", "ssh pump: the whole input buffer is searched", b.name, f.loc(), holds=whole,
-                     key="C06/R1 %s partial-search" % fn)
-    for s in splits:
-        e = sym.of_operand(s.args[1])
-        terms = TC.add_terms(e)
-        consts = sum(t[1] for t in terms if t[0] == "const")
-        others = sorted(t for t in terms if t[0] != "const")
-        ok = consts == mlen and others == [("index",)]
-        chk.instance("C06/R2", "ssh pump: split position = index + MARKER.len() (got %s)" % render(e), b.name, s.loc(),
-                     holds=ok, key="C06/R2 %s split-position" % fn)
-    find_blocks = [f.bb for f in finds]
+    # find + split may live in a private helper ("take one message off the buffer"): analyse the helper's body for R1/R2 and
+    # treat its call sites as search-and-split sites in the pump
+    helper_calls = []
+    for c in b.calls():
+        if c.macro:
+            continue
+        hb = fx.mir.get(c.rdef) or fx.mir.get(c.defn)
+        if hb is None or hb.crate != "netconf" or hb is b:
+            continue
+        hf = hb.calls_to("memmem::Finder::<'n>::find", user_only=True)
+        hs_ = hb.calls_to("BytesMut::split_to", user_only=True)
+        if hf and hs_:
+            helper_calls.append((c, hb, hf, hs_))
+    chk.floor("C06 ssh pump find/split/wait/extend sites", min(len(finds) + len(helper_calls), len(splits) + len(helper_calls), len(waits), len(exts)), 1)
+    chk.call_sites += len(finds) + len(splits) + len(waits) + len(exts) + len(helper_calls)
+    for (body, sy, ff, ss) in [(b, sym, finds, splits)] + [(hb, TC.Sym(hb, mlen), hf, hs_) for (_, hb, hf, hs_) in helper_calls]:
+        if body is not b:
+            chk.analysed(body.name)
+        for f in ff:
+            hs, _ = haystack_start(body, sy, f)
+            whole = hs[0] == "buffer" or (hs[0] == "unknown" and _is_buffer_param(body, f))
+            chk.instance("C06/R1", "ssh pump: the whole input buffer is searched", body.name, f.loc(), holds=whole,
+                         key="C06/R1 %s partial-search" % fn)
+        for s in ss:
+            e = sy.of_operand(s.args[1])
+            terms = TC.add_terms(e)
+            consts = sum(t[1] for t in terms if t[0] == "const")
+            others = sorted(t for t in terms if t[0] != "const")
+            ok = consts == mlen and others == [("index",)]
+            chk.instance("C06/R2", "ssh pump: split position = index + MARKER.len() (got %s)" % render(e), body.name, s.loc(),
+                         holds=ok, key="C06/R2 %s split-position" % fn)
+    find_blocks = [f.bb for f in finds] + [c.bb for (c, _, _, _) in helper_calls]
+    for (c, hb, _, _) in helper_calls:
+        # the helper hands back Some(message) after a split: from that edge, the buffer must be searched again before waiting
+        none_t, some_t = b.switch_on(c.dest["l"], c.target) if c.target is not None else (None, None)
+        if some_t is None:
+            chk.instance("C06/R3", "ssh pump: result of %s is matched on Some/None" % T.short(hb.name, 1), b.name, c.loc(), holds=False,
+                         key="C06/R3 %s helper-result unrecognised form" % fn)
+            continue
+        reach = b.reachable(some_t, avoid=find_blocks)
+        bad = [w for w in waits if w.bb in reach]
+        chk.instance("C06/R3", "ssh pump: after %s returned a message the buffer is searched again before waiting for more input" % T.short(hb.name, 1),
+                     b.name, c.loc(), holds=not bad, key="C06/R3 %s wait-without-research" % fn,
+                     detail="a second message that arrived in the same packet would stay buffered until further traffic" if bad else None)
     for s in splits:
         reach = b.reachable_from_succs(s.bb, avoid=find_blocks)
         bad = [w for w in waits if w.bb in reach]
@@ -237,7 +272,7 @@ def pump(chk, fx, b, mlen):
         raise F.AnchorLost("ssh pump: BytesMut::new not found")
     # every message split off is forwarded (send result checked)
     sends = b.calls_to("mpsc::Sender::<T>::send", user_only=True)
-    for s in splits:
+    for s in splits + [c for (c, _, _, _) in helper_calls]:
         t = b.forward_taint([s.dest["l"]], through_call=lambda c: c.is_fn("BytesMut::freeze"))
         fwd = [x for x in sends if F.op_base(x.args[1]) in t]
         chk.instance("C06/R3", "ssh pump: each split message is enqueued for the receiver", b.name, s.loc(), holds=bool(fwd),
